@@ -248,6 +248,8 @@ func (r *c16HistRun) step(rep *Report, n int, replay func() map[string]any) {
 		}
 		rep.Violation(r.key, fmt.Sprintf("%s - its own session token, strictly inside (iat, exp) - yields no session: %s - %s", what, res, before), replay())
 		return
+	case s.Class == "DontCare":
+		// the same URL in another spelling (letter case of the host, "" against "/"): left open by the statement
 	case s.Class != "MustAccept" && s.Class != "MustReject":
 		rep.Break("%s: step %d has class %q", r.key, n+1, s.Class)
 		return
@@ -439,7 +441,7 @@ func TestC16ReplayHistory(t *testing.T) {
 			}
 		}
 	}
-	for _, sname := range []string{"Sp", "Sq", "Ss", "Sc"} {
+	for _, sname := range []string{"Sp", "Sq", "Ss"} { // (Sc is the same URL in another spelling: nothing is required of it)
 		if sibCross["A>"+sname] == 0 || sibCross[sname+">A"] == 0 {
 			rep.Break("vacuous: no fresh session token crosses between A and its sibling %s in both directions", sname)
 		}
